@@ -9,7 +9,9 @@ import "verif/mc/engine"
 // themselves as not covered.
 const wovenAvailable = false
 
-func wovenNote() string { return "harness built without the woven copy (weaving failed or not requested)" }
+func wovenNote() string {
+	return "harness built without the woven copy (weaving failed or not requested)"
+}
 
 func registerWoven() {}
 
